@@ -1,7 +1,8 @@
 #!/bin/bash
-# usage: confirm_seed.sh <Cnn> <N>  -- independently re-confirm a sub-agent's seeded change in its scratch worktree
+# usage: confirm_seed.sh <Cnn> <N> [<root> [<K>]] -- root = directory holding the worktrees (default /tmp/mut), K = number to keep it under (default N)
+# independently re-confirm a sub-agent's seeded change in its scratch worktree
 # and, if confirmed, keep it as /verif/seeded/<Cnn>-<N>/ (patch.diff, demo files, meta.json)
-ID=$1; N=$2; W=/tmp/mut/$ID; M=$W/_mut; OUT=/verif/seeded/$ID-$N; LOG=/tmp/mut/confirm-$ID-$N.log
+ID=$1; N=$2; ROOT=${3:-/tmp/mut}; K=${4:-$N}; W=$ROOT/$ID; M=$W/_mut; OUT=/verif/seeded/$ID-$K; LOG=$ROOT/confirm-$ID-$N.log
 cd $W || exit 9
 exec >$LOG 2>&1
 git checkout -q -- src include
@@ -10,20 +11,20 @@ git apply $M/patch$N.diff
 cmake -G Ninja -B _build -DCMAKE_BUILD_TYPE=RelWithDebInfo >/dev/null && cmake --build _build -j4 >/dev/null 2>&1 || { echo "RESULT: build failed with patch"; git checkout -q -- src include; exit 1; }
 PASSED=$(ctest --test-dir _build -j4 --timeout 900 2>&1 | grep -c "Passed")
 echo "tests passed with patch: $PASSED"
-timeout 900 sh $M/run$N.sh >/tmp/mut/run-$ID-$N-patched.out 2>&1; RC_P=$?
+timeout 900 sh $M/run$N.sh >$ROOT/run-$ID-$N-patched.out 2>&1; RC_P=$?
 echo "demo with patch: rc=$RC_P"
 git checkout -q -- src include
 cmake --build _build -j4 >/dev/null 2>&1
-timeout 900 sh $M/run$N.sh >/tmp/mut/run-$ID-$N-clean.out 2>&1; RC_C=$?
+timeout 900 sh $M/run$N.sh >$ROOT/run-$ID-$N-clean.out 2>&1; RC_C=$?
 echo "demo without patch: rc=$RC_C"
 if [ "$PASSED" = "87" ] && [ $RC_P -ne 0 ] && [ $RC_C -eq 0 ]; then
   mkdir -p $OUT
   cp $M/patch$N.diff $OUT/patch.diff
-  for f in $M/demo$N.* $M/run$N.sh $M/notes$N.md $M/*.h $M/*.py; do [ -f "$f" ] && [ $(stat -c %s "$f") -lt 400000 ] && cp "$f" $OUT/; done
-  tail -5 /tmp/mut/run-$ID-$N-patched.out > $OUT/demo_output_patched.txt
+  for f in $M/demo$N.* $M/demo${N}_* $M/run$N.sh $M/notes$N.md $M/*.h $M/*.py; do [ -f "$f" ] && [ $(stat -c %s "$f") -lt 400000 ] && cp "$f" $OUT/; done
+  tail -5 $ROOT/run-$ID-$N-patched.out > $OUT/demo_output_patched.txt
   python3 - <<PY
 import json
-json.dump({"property":"$ID","seed":"$ID-$N","base_commit":"$(git rev-parse HEAD)",
+json.dump({"property":"$ID","seed":"$ID-$K","base_commit":"$(git rev-parse HEAD)",
  "needs":open("$M/notes$N.md").read()[:1500],
  "confirmed":{"tests_passed_with_patch":$PASSED,"demo_rc_with_patch":$RC_P,"demo_rc_without_patch":$RC_C,
    "ran":"git apply patch; cmake --build; ctest (87 pass); sh _mut/run$N.sh (fails); git checkout; rebuild; sh _mut/run$N.sh (passes) in scratch worktree $W"}},
